@@ -6,6 +6,7 @@ import (
 	"errors"
 	"fmt"
 	"os"
+	"runtime"
 	"strings"
 	"sync/atomic"
 	"time"
@@ -370,6 +371,61 @@ func init() {
 				}
 				j.Remove()
 			}
+		}
+		// Part 3c: massive-mode calls of every entry point with the process limited to 1, 2, 3 and 16 processors (worker
+		// pools and hand-overs must not depend on how many there are)
+		for _, procs := range []int{1, 2, 3, 16} {
+			if !c.Take() || c.Expired() {
+				continue
+			}
+			old := runtime.GOMAXPROCS(procs)
+			c.StateN(1)
+			c.Inc("processor_count_cases")
+			for _, doc := range []string{"- a\n  - b\n- c\n  - d.go\n- e\n", "- a\n", "", "- a\n  -\n- b\n", "- a/b\n- c\n"} {
+				for _, ep := range []string{"out", "out-json", "out-dry", "walk", "mkdir", "mkdir-dry", "verify", "outroot", "walkroot", "mkdirroot"} {
+					j := fsx.NewJail("c12p")
+					c12Current.Store(fmt.Sprintf("%s massive GOMAXPROCS=%d %q", ep, procs, doc))
+					c12Tick.Add(1)
+					opts := append([]gtree.Option{gtree.WithTargetDir(j.Target), gtree.WithFileExtensions([]string{".go"})}, extraOpts("massive", "")...)
+					pan := guardMaybeMassive(true, func() {
+						var buf bytes.Buffer
+						oldc := color.Output
+						color.Output = &buf
+						defer func() { color.Output = oldc }()
+						root := gtree.NewRoot("r")
+						root.Add("a").Add("b.go")
+						cb := func(w *gtree.WalkerNode) error { _ = w.Row(); return nil }
+						switch ep {
+						case "out":
+							gtree.OutputFromMarkdown(&buf, strings.NewReader(doc), opts...)
+						case "out-json":
+							gtree.OutputFromMarkdown(&buf, strings.NewReader(doc), append(opts, gtree.WithEncodeJSON())...)
+						case "out-dry":
+							gtree.OutputFromMarkdown(&buf, strings.NewReader(doc), append(opts, gtree.WithDryRun())...)
+						case "walk":
+							gtree.WalkFromMarkdown(strings.NewReader(doc), cb, opts...)
+						case "mkdir":
+							gtree.MkdirFromMarkdown(strings.NewReader(doc), opts...)
+						case "mkdir-dry":
+							gtree.MkdirFromMarkdown(strings.NewReader(doc), append(opts, gtree.WithDryRun())...)
+						case "verify":
+							gtree.VerifyFromMarkdown(strings.NewReader(doc), opts...)
+						case "outroot":
+							gtree.OutputFromRoot(&buf, root, opts...)
+						case "walkroot":
+							gtree.WalkFromRoot(root, cb, opts...)
+						case "mkdirroot":
+							gtree.MkdirFromRoot(root, opts...)
+						}
+					})
+					c.Eval()
+					j.Remove()
+					if pan != "" {
+						c.Violation("C12|panic-or-hang|massive|"+ep, fmt.Sprintf("GOMAXPROCS=%d entry %s doc %q: %s", procs, ep, doc, pan), procs, nil)
+					}
+				}
+			}
+			runtime.GOMAXPROCS(old)
 		}
 		// Part 4: every subset of the ten options at every entry point (From-Markdown and From-Root), on eight small
 		// documents (valid, with a file, malformed, invalid name, heading, empty): whatever a combination means, the call
